@@ -139,6 +139,57 @@ fn cycles(p: &[Item], t: &[Vec<Ordering>]) -> Vec<String> {
     out
 }
 
+/// rows: (raw value x, optional subtrahend d); key = x - d when d is given (computed), else the raw term x
+fn expression_keys() -> usize {
+    let n = |lex: &str, dt: &str| lit(lex, dt);
+    // (x, d, numeric key x2 if numeric)
+    let rows: Vec<(T, Option<T>, Option<i128>)> = vec![
+        (n("3", "integer"), None, Some(6)), (n("3", "integer"), Some(n("1", "integer")), Some(4)), (n("10", "integer"), Some(n("1", "integer")), Some(18)),
+        (n("5", "integer"), None, Some(10)), (n("2.5", "decimal"), None, Some(5)), (n("7", "integer"), Some(n("0.5", "decimal")), Some(13)),
+        (n("n/a", "string"), None, None), (n("zzz", "string"), None, None), (n("x", "anyURI"), None, None), (iri("x:a"), None, None), (bn("b1"), None, None),
+        (n("1", "integer"), Some(n("3", "integer")), Some(-4)), (n("-2", "integer"), None, Some(-4)),
+    ];
+    let run = |sel: &[usize], order: &str| -> Vec<usize> {
+        let mut d: Vec<[T; 4]> = vec![];
+        for i in sel {
+            let s = iri(&format!("x:s{}", i));
+            match &rows[*i].1 {
+                Some(dd) => { d.push([s.clone(), iri("x:v"), rows[*i].0.clone(), iri("x:g")]); d.push([s.clone(), iri("x:d"), dd.clone(), iri("x:g")]); }
+                None => d.push([s.clone(), iri("x:w"), rows[*i].0.clone(), iri("x:g")]),
+            }
+        }
+        let q = format!("SELECT ?s {{ GRAPH <x:g> {{ {{ ?s <x:v> ?x . ?s <x:d> ?d }} UNION {{ ?s <x:w> ?x }} }} }} ORDER BY {}", order);
+        let w = SparqlWrapper(&d);
+        let res = match w.query(q.as_str()) { Ok(SparqlResult::Bindings(b)) => b, Ok(_) => panic!("not bindings"), Err(e) => panic!("query failed: {e} in {q}") };
+        res.into_iter().map(|r| { let r = r.unwrap(); let s = r[0].as_ref().unwrap().iri().unwrap().as_str()[3..].parse::<usize>().unwrap(); s }).collect()
+    };
+    let key = "COALESCE(?x - ?d, ?x)";
+    let m = rows.len();
+    let mut t = vec![vec![Ordering::Equal; m]; m];
+    for i in 0..m { for j in 0..m { if i != j {
+        // rows with ?d come out of the first UNION branch whatever the insertion order: use both DESC and ASC to tell Equal from ordered
+        let asc = run(&[i, j], key);
+        let desc = run(&[i, j], &format!("DESC({})", key));
+        if asc.len() != 2 || desc.len() != 2 { fail("expression key: ORDER BY lost or duplicated a row", format!("{:?} {:?}", asc, desc)); }
+        t[i][j] = if asc == desc { Ordering::Equal } else if asc[0] == i { Ordering::Less } else { Ordering::Greater };
+    }}}
+    let name = |i: usize| format!("{:?}{}", rows[i].0, match &rows[i].1 { Some(d) => format!(" - {:?}", d), None => String::new() }).replace("http://www.w3.org/2001/XMLSchema#", "xsd:");
+    for a in 0..m { for b in 0..m {
+        if t[a][b] != t[b][a].reverse() { fail("expression keys: the order is not antisymmetric", format!("{} ? {}", name(a), name(b))); }
+        if let (Some(x), Some(y)) = (rows[a].2, rows[b].2) { if a != b && t[a][b] != Ord::cmp(&x, &y) { fail("expression keys: ORDER BY disagrees with the numeric values of the keys", format!("{} vs {}: {:?}, values compare {:?}", name(a), name(b), t[a][b], Ord::cmp(&x, &y))); } }
+        for c in 0..m {
+            let (ab, bc, ac) = (t[a][b], t[b][c], t[a][c]);
+            if (ab != Ordering::Greater && bc != Ordering::Greater && ac == Ordering::Greater) || (ab == Ordering::Equal && bc == Ordering::Equal && ac != Ordering::Equal) {
+                fail("expression keys (computed values mixed with raw terms): the order used by ORDER BY is not a total preorder", format!("{} <= {} <= {} but not {} <= {}", name(a), name(b), name(c), name(a), name(c)));
+            }
+        }
+    }}
+    let all: Vec<usize> = (0..m).collect();
+    let out = run(&all, key);
+    for i in 0..out.len() { for j in i + 1..out.len() { if t[out[i]][out[j]] == Ordering::Greater { fail("expression keys: ORDER BY output is not sorted by its own order", format!("{} appears before {}", name(out[i]), name(out[j]))); } } }
+    m
+}
+
 pub fn main_orderby(mode: &str) {
     if mode == "findings" {
         // one line per recorded class whose witness triple is (still) cyclic; exit 0
@@ -204,5 +255,9 @@ pub fn main_orderby(mode: &str) {
             if o == Ordering::Greater { fail("two-key ORDER BY: later keys do not break ties / DESC not applied per key", format!("ORDER BY {}: ({}, {}) appears before ({}, {})", ord, p[k1].name, p[x1].name, p[k2].name, p[x2].name)); }
         }}
     }
-    println!("{{\"ok\":true,\"pool\":{},\"pairs\":{},\"two_key_rows\":{}}}", p.len(), p.len() * p.len(), rows.len());
+    // 6 expression keys: ORDER BY COALESCE(?x - ?d, ?x) gives a COMPUTED value for the rows that have ?d and the
+    // RAW bound term for the others; the order on such mixed keys is still a total preorder that agrees with the
+    // numeric value wherever both keys are numeric
+    let expr_rows = expression_keys();
+    println!("{{\"ok\":true,\"pool\":{},\"pairs\":{},\"two_key_rows\":{},\"expression_key_rows\":{}}}", p.len(), p.len() * p.len(), rows.len(), expr_rows);
 }
